@@ -113,6 +113,9 @@ type crashRun struct {
 	merges []mergeWindow
 	names  int
 	desc   []string
+	// cancelAt: the context of the merge in progress is cancelled right before the mutation with this index
+	cancelAt int
+	cancel   context.CancelFunc
 }
 
 func newCrashRun(cfg bs.BloomSearchEngineConfig, r Rng) *crashRun {
@@ -134,6 +137,9 @@ func newCrashRun(cfg bs.BloomSearchEngineConfig, r Rng) *crashRun {
 	eng.Start()
 	cr.eng = eng
 	bs.VerifSetFSHook(func(op, path string) {
+		if cr.cancel != nil && len(cr.events) == cr.cancelAt {
+			cr.cancel()
+		}
 		cr.events = append(cr.events, fsEvent{op: op, path: filepath.Base(path), snap: readDirSnap(dir)})
 	})
 	return cr
@@ -199,6 +205,28 @@ func (cr *crashRun) merge(failWriter, failAt int) {
 		n = st.FilesProcessed
 	}
 	cr.desc = append(cr.desc, fmt.Sprintf("merge files=%d failWriter=%d failAt=%d err=%v", n, failWriter, failAt, err))
+}
+
+// mergeCancelledAt runs a merge whose context is cancelled right before its k-th filesystem mutation (k >= 1;
+// the merge may finish earlier, then nothing is cancelled). Returns whether the cancellation happened.
+func (cr *crashRun) mergeCancelledAt(k int) bool {
+	if cr.merged < 0 {
+		cr.merged = len(cr.events)
+	}
+	start := len(cr.events)
+	ctx, cancel := context.WithCancel(context.Background())
+	cr.cancelAt, cr.cancel = start+k-1, cancel
+	st, err := cr.eng.Merge(ctx)
+	hit := ctx.Err() != nil
+	cr.cancel = nil
+	cancel()
+	cr.merges = append(cr.merges, mergeWindow{start, len(cr.events), err})
+	n := int64(0)
+	if st != nil {
+		n = st.FilesProcessed
+	}
+	cr.desc = append(cr.desc, fmt.Sprintf("merge files=%d context cancelled before its mutation #%d (reached=%v) err=%v", n, k, hit, err))
+	return hit
 }
 
 // modelOps renders the observed mutation stream as crash-model operations.
@@ -543,6 +571,46 @@ func runC15(c *ctx) {
 		cr.flush([]string{"a"}, 0)
 		cr.finish()
 		cr.check(c)
+	}
+	// scripted: the same two-group merge with its context cancelled before its k-th filesystem mutation, for every
+	// k the merge reaches (a cancelled context is one more way a merge ends early; what it leaves behind is
+	// what a crash afterwards finds)
+	for k := 1; k <= 60; k++ {
+		cfg := crashCfg(r)
+		cfg.MaxRowGroupRows = 100
+		cr := newCrashRun(cfg, r)
+		cr.flush([]string{"a"}, 0)
+		cr.flush([]string{"a", "a"}, 0)
+		cr.flush([]string{"b"}, 0)
+		cr.flush([]string{"b", "b"}, 0)
+		hit := cr.mergeCancelledAt(k)
+		cr.flush([]string{"a"}, 0)
+		cr.finish()
+		c.r.Hit("merge.cancelled-at-mutation." + b2s(hit))
+		cr.check(c)
+		if !hit {
+			break
+		}
+	}
+	// ... and the two combined: the context is already cancelled when the second group's output fails at its
+	// j-th write, so the rollback of the first group's published output runs under a cancelled context
+	for j := 1; j <= 3; j++ {
+		for _, k := range []int{1, 4, 8, 12} {
+			cfg := crashCfg(r)
+			cfg.MaxRowGroupRows = 100
+			cr := newCrashRun(cfg, r)
+			cr.flush([]string{"a"}, 0)
+			cr.flush([]string{"a", "a"}, 0)
+			cr.flush([]string{"b"}, 0)
+			cr.flush([]string{"b", "b"}, 0)
+			cr.ffs.arm(2, j)
+			hit := cr.mergeCancelledAt(k)
+			cr.ffs.disarm()
+			cr.flush([]string{"a"}, 0)
+			cr.finish()
+			c.r.Hit("merge.cancelled-and-failing." + b2s(hit))
+			cr.check(c)
+		}
 	}
 	n := 40 * c.scale
 	for i := 0; i < n; i++ {
